@@ -20,4 +20,7 @@ def kernprofOptions : List OptSpec := [
   ⟨"", "--prof-imports", .flag⟩
 ]
 
+/-- argparse's `allow_abbrev` of every parser kernprof creates (`True` is argparse's default) -/
+def kernprofAllowAbbrev : Bool := false
+
 end LPVerif.Generated
